@@ -482,6 +482,9 @@ def oracle_c07(rr: Any, spec: Dict[str, Any]) -> "tuple[List[Violation], int]":
                 v.append(Violation("processing-incomplete", f"delivery {info['d']} never completed processing"))
             if first(evs, "set_fail") is not None and first(evs, "cb_raise") is not None:
                 v.append(Violation("backend-failure-propagated", f"delivery {info['d']}: backend failure escaped the message processing"))
+            if first(evs, "set_fail") is not None and info.get("ackable") and first(evs, "cb_exit") is not None \
+                    and first(evs, "ack") is None:
+                v.append(Violation("backend-failure-blocks-completion", f"delivery {info['d']}: result backend failed and the message never completed processing (no acknowledgement)"))
     elif rr.outcome in ("deadlock", "horizon", "raised"):
         v.append(Violation("worker-stalled", f"worker outcome {rr.outcome} ({rr.err})"))
     return v, checked
